@@ -59,6 +59,7 @@ _COLL_MD = {
     "cms_aod": lambda name: {"metadata_type": "add_cms_aod_event_collection_info", "name": name, "include_files": ["DataFormats/VpLeak/interface/Leak.h"],
                              "container_type": "reco::VpLeakCollection", "element_type": "reco::VpLeak", "contains_collection": True, "element_pointer": False},
 }
+_COLL_MD["cms_miniaod"] = lambda name: dict(_COLL_MD["cms_aod"](name), metadata_type="add_cms_miniaod_event_collection_info")
 
 
 def _md_for(kind, backend):
@@ -78,7 +79,7 @@ def _query(backend, md_list, body="j.pt()", bank='"bk1"', coll=None):
 
 def _run_op(op, execs, outdir):
     """One operation of a history on the real code.  Returns the observed outcome."""
-    backend = "cms_aod" if op["on"] == "otherbk" else "atlas"
+    backend = {"otherbk": "cms_aod", "otherbk2": "cms_miniaod"}.get(op["on"], "atlas")
     if op["on"] == "same":
         exe = execs["same"]
     else:
@@ -100,7 +101,7 @@ def _run_op(op, execs, outdir):
 
 
 PROBES = ["pt_same", "pt_new", "enum_same", "blocks_same", "cms_new", "mini_new", "truth_same", "truth_new", "again_same",
-          "newcoll_same", "fn_same", "rewrite_same", "rewrite_mini"]
+          "newcoll_same", "fn_same", "rewrite_same", "rewrite_mini", "cmsdef_new", "minidef_new"]
 
 
 def _run_probe(probe, execs, outdir, fresh=False):
@@ -133,6 +134,10 @@ def _run_probe(probe, execs, outdir, fresh=False):
         backend = "atlas" if probe == "rewrite_same" else "cms_miniaod"
         exe = execs["same"] if probe == "rewrite_same" else None
         src = _query(backend, [], "j.pt() + e.%s(\"bk2\").Count()" % _COLL[backend][0])
+    elif probe in ("cmsdef_new", "minidef_new"):
+        # a method whose type comes from the backend's own default declarations (bool), on each CMS backend
+        backend = "cms_aod" if probe == "cmsdef_new" else "cms_miniaod"
+        exe, src = None, _query(backend, [], "j.isPFMuon()")
     elif probe == "newcoll_same":
         # a collection no backend knows: refused in a fresh process, and after any history
         exe, backend, src = execs["same"], "atlas", _query("atlas", [], coll="VpLeakColl")
@@ -228,7 +233,7 @@ def run(tier, hists_override=None):
     hists = sorted(uniq, key=len)
     total = len(hists)
     exhaustive = True
-    cap = 3800 if tier == "quick" else 14000
+    cap = 2600 if tier == "quick" else 14000
     if total > cap:
         rnd = random.Random(common.seed())
         short = [h for h in hists if len(h) <= 2]
@@ -269,7 +274,7 @@ def run(tier, hists_override=None):
         "traces_validated_against_impl": len(hists),
         "evaluations": len(recs),
         "distinct_nontrivial": len(changing),
-        "rule": "histories: every sequence of operations (7 metadata kinds x ok / failure in translation / failure in the client-side rewrite / failure in metadata x same/other/other-backend executor) "
+        "rule": "histories: every sequence of operations (7 metadata kinds x ok / failure in translation / failure in the client-side rewrite / failure in metadata x same / other / CMS AOD / CMS miniAOD executor) "
                 "up to the MaxLen of %s, enumerated by TLC (%d, exhaustive=%s); each followed by %d probes; non-trivial = the history declares "
                 "something (method type, enum, blocks, extended metadata, collection, C++ function); distinct by history" % (cfg, total, exhaustive, len(PROBES)),
         "exhaustive": exhaustive,
